@@ -147,6 +147,7 @@ class Queue(mp_Queue):
             wacquire = None
 
         while True:
+            sending = False
             try:
                 nacquire()
                 try:
@@ -168,6 +169,7 @@ class Queue(mp_Queue):
 
                         # serialize the data before acquiring the lock
                         obj_ = dumps(obj, reducers=reducers)
+                        sending = True
                         if wacquire is None:
                             send_bytes(obj_)
                         else:
@@ -176,6 +178,7 @@ class Queue(mp_Queue):
                                 send_bytes(obj_)
                             finally:
                                 wrelease()
+                        sending = False
                         # Remove references early to avoid leaking memory
                         del obj, obj_
                 except IndexError:
@@ -184,7 +187,13 @@ class Queue(mp_Queue):
                     # to be reported like any other one.
                     raise
             except BaseException as e:
-                if ignore_epipe and getattr(e, "errno", 0) == errno.EPIPE:
+                # Only an EPIPE raised while sending means that the readers are
+                # gone: one raised while pickling obj is an error of this item.
+                if (
+                    ignore_epipe
+                    and sending
+                    and getattr(e, "errno", 0) == errno.EPIPE
+                ):
                     return
                 # Since this runs in a daemon thread the resources it uses
                 # may be become unusable while the process is cleaning up.
